@@ -235,7 +235,11 @@ CLAIMS = {
             "rewrite+joinBy), constraints, rewriters, global utility files, overlapping languageGlobs and tests is written "
             "with permuted keys and rule-file names and scanned by 6-24 fresh sgv processes per permutation; Trace_C13 "
             "requires identical canonicalised findings/messages/fixes/exit status everywhere, sg test -U followed by sg test "
-            "to pass with byte-identical snapshots, and every observed topo_order event to be a topological permutation.",
+            "to pass with byte-identical snapshots, the files written by scan -U (two rules fix the same nodes) to be identical, "
+            "and every observed topo_order event to be a topological permutation. The snapshot clause is also decided on "
+            "TestRunner.tla: every rule test file of <=3/4 cases (valid/invalid x match x snapshot absent/same/stale) is run by "
+            "the real sg test with -U, plain, -U, plain; after -U no snapshot may be reported wrong and a second -U must leave "
+            "the snapshot file byte-identical.",
             "hash orders are sampled by launching processes (the evidence reports how many distinct orders were observed); "
             "one project family",
             "DESIGN.md section 3 C13"),
@@ -275,7 +279,10 @@ CLAIMS = {
             "variant the same text goes through scan on a file (project and -r), --stdin, three JSON styles, --format "
             "github (file and stdin), the coloured report, sg test and the language server; FrontEnds.tla states what each "
             "must show of the library's findings (ids, byte ranges, line/column in the unit of the front end, substituted "
-            "messages, levels).",
+            "messages, levels). A third stage, TestRunner.tla (status of every case of a rule test file as a function of valid/invalid, "
+            "match, snapshot state and flags), is enumerated by TLC for all files of <=3 (quick) / <=4 (thorough) cases and every "
+            "file is run by the real `sg test` four times (flags, plain, -U, plain): the valid/invalid verdicts and the exit status "
+            "are judged here, the snapshot clauses under C13.",
             "the model is bounded (one document, <=5 notifications, <=4 concurrent handlers); real schedules are sampled "
             "(3 modes x 2 thread counts), not enumerated; texts come from a statement pool per language",
             "DESIGN.md section 3 C09"),
@@ -286,12 +293,17 @@ CLAIMS = {
             "specification contributes the input space. RuleDocGen.tla lists 16 fields with 4-12 value classes each "
             "(wrong types, empty strings, lone/multi-byte sigils, extreme numbers, invalid regexes and globs, unknown "
             "kinds/fields/languages, duplicate ids, self/mutual/relational/ofRule cycles, YAML anchors, tabs, 3000-deep "
-            "nesting ...); TLC enumerates every document with at most two non-default classes (3271). Each is rendered "
+            "nesting, valid convert/substring/replace transformations ...); TLC enumerates every document with at most two non-default classes. Each is rendered "
             "to YAML and run as rule file (scan over 3 texts, and -U), as inline rules with --stdin, inside a project "
             "(ruleDirs + utilDirs + sg test) and as sgconfig.yml, each in its own sgv child under a 15 s timeout; panic "
             "(101 / 'panicked at'), fatal signal and hang are violations, judged by Trace_C11. A seeded byte-mutation "
-            "stage (truncate, insert junk, duplicate, strip quotes) follows and is reported separately.",
-            "dev-profile build (debug assertions + overflow checks); 'every byte string' is only sampled; three fixed "
+            "stage (truncate, insert junk, duplicate, strip quotes) follows and is reported separately. Stage 2 covers the part "
+            "of an accepted rule that works on the captured text character by character: StringCase.tla transcribes the "
+            "word-splitting machine of `convert` (byte offsets, four states), MC_StringCase proves on all strings of <=5/6 "
+            "characters over seven character classes that it never cuts inside a character, loses no letter and equals the "
+            "documented splitting, and every exported string goes through the real transformation (a panic is a violation, any "
+            "other difference is reported as drift of the transcription).",
+            "dev-profile build (debug assertions + overflow checks); 'every byte string' is only sampled; four fixed "
             "source texts",
             "DESIGN.md section 3 C11"),
 }
